@@ -147,3 +147,42 @@ CHECKS["C04"] = {
         {"variant": "tsan", "engine": "stress", "procs": 2, "rounds_quick": 1500, "rounds_thorough": 30000},
     ],
 }
+
+CHECKS["C05"] = {
+    "src": "C05.cpp",
+    "level": "exploration",
+    "rule": "tiny rounds on a fresh rcu_guarded<rcu_list<T, mutex, TrackAlloc>> (T = Cell or std::string, 0-5 initial elements, 2-5 threads x 1-3 "
+            "actions: traversals pausing on an element and re-reading it afterwards, erasers by id / first / all, pushers, short-lived handles whose "
+            "release triggers reclamation, handles kept across later actions). Freed nodes and log records are quarantined (never reused within the "
+            "round) and poisoned: ASan reports any touch, plain builds see 0xDD fill / dead payload magic / SIGSEGV. Non-trivial: a node was "
+            "reclaimed while another handle was still alive; distinct = (program, schedule signature).",
+    "assumptions": ["handles are never copied (client misuse, outside the property)", "records are recognised by the substring 'zombie' in the internal type name"],
+    "runs": [
+        {"variant": "asan", "engine": "serial", "procs": 6, "rounds_quick": 3000, "rounds_thorough": 50000},
+        {"variant": "asan", "engine": "stress", "procs": 4, "rounds_quick": 2500, "rounds_thorough": 40000},
+        {"variant": "plain", "engine": "serial", "procs": 4, "rounds_quick": 8000, "rounds_thorough": 150000},
+        {"variant": "asan", "engine": "serial", "mode": "big", "procs": 2, "rounds_quick": 1000, "rounds_thorough": 20000, "tiers": ["thorough"]},
+        {"variant": "tsan", "engine": "stress", "procs": 2, "rounds_quick": 1000, "rounds_thorough": 20000},
+    ],
+}
+
+CHECKS["C06"] = {
+    "src": "C06.cpp",
+    "level": "exploration",
+    "rule": "tiny rounds on deferred_guarded<Cell, M> (4 mutex types): 1-3 submitters x 1-5 modify_detach / modify_async (int and void, 12% "
+            "throwing) with unique ids, 1-3 readers holding shared handles (all acquisition forms) for random spans, loads; after the submitters "
+            "returned one lock_shared / try_lock_shared / modify_detach is made with no handle held. Oracles: execution count of every functor == 1 "
+            "after that access (stranded / twice), functor window exclusive against readers and other functors, execution order respects each "
+            "submitter's order and real time, final log = non-throwing ids once each, futures ready with the functor's result or its exception, "
+            "no lock held when a submission returns. Non-trivial: some submission took the queued path; distinct = (program, schedule, order).",
+    "assumptions": ["a queued task with no later access is, by design, not applied; only 'applied by the next access' is demanded",
+                    "whether a throwing modify_detach ran on the direct or the queued path is not observable, so exception delivery to the caller is "
+                    "judged only in C20 (sequential direct path)"],
+    "runs": [
+        {"variant": "plain", "engine": "serial", "procs": 6, "rounds_quick": 6000, "rounds_thorough": 120000},
+        {"variant": "plain", "engine": "stress", "procs": 3, "rounds_quick": 4000, "rounds_thorough": 80000},
+        {"variant": "asan", "engine": "stress", "procs": 2, "rounds_quick": 2000, "rounds_thorough": 40000},
+        {"variant": "asan", "engine": "serial", "procs": 2, "rounds_quick": 2000, "rounds_thorough": 40000},
+        {"variant": "tsan", "engine": "stress", "procs": 2, "rounds_quick": 1500, "rounds_thorough": 30000},
+    ],
+}
